@@ -17,6 +17,7 @@ async def run_history(sc):
     inst = PFX + (1, 1, 0)
     ag = Agent({inst: enc_str(b"value")}, users=[u], engine=engine, boots=sc.get("boots", 3), clock=lambda: clock[0])
     ag.t0 = clock[0] - sc.get("agent_time", 1000)
+    ag.honour_reportable = bool(sc.get("honour_reportable"))
     wire = []
 
     def classify(packet):
@@ -30,13 +31,25 @@ async def run_history(sc):
         packet = bytes(packet)
         k = classify(packet)
         wire.append(k)
-        raw = ag.handle(packet)
+        try:
+            raw = ag.handle(packet)
+        except Dropped:
+            from puresnmp.exc import Timeout
+            raise Timeout("no answer (the agent dropped the datagram)")
         if k == "probe" and disco != "ok" and wire.count("probe") == 1:
             q = ag.log[-1]
-            if disco == "msgid_plus1":
+            if disco in ("msgid_maxint", "msgid_zero", "msgid_minus1"):
+                v = {"msgid_maxint": 2 ** 31 - 1, "msgid_zero": 0, "msgid_minus1": -1}[disco]
+                raw = ag.report(q, "unknownEngineIDs", None, v if v != q["msgid"] else v - 3, q.get("reqid", 0))
+            elif disco == "msgid_plus1":
                 ag.disco_delta = 1
                 raw = ag.report(q, "unknownEngineIDs", None, q["msgid"] + 1, q.get("reqid", 0))
                 ag.disco_delta = 0
+            elif disco in ("report_err2", "report_err5"):
+                # a discovery reply whose Report PDU carries an error-status: not a usable discovery reply, and not the answer to anything
+                from refagent import USM_STATS
+                raw = build_v3(q["msgid"], 65507, 0, ag.engine, ag.boots, ag.engine_time(), b"", b"", b"",
+                               build_scoped(ag.engine, b"", build_pdu(REPORT, q.get("reqid", 0), 2 if disco.endswith("2") else 5, 1, [(USM_STATS["unknownEngineIDs"], enc_uint(1, 0x41))])))
             elif disco in ("no_varbinds", "no_varbinds_stale"):
                 # a refused reply must leave nothing behind: the stale variant carries the timing of the previous boot cycle
                 stale = disco.endswith("stale")
@@ -55,8 +68,12 @@ async def run_history(sc):
             if step == "op":
                 n0, w0 = len(ag.log), len(wire)
                 try:
-                    r = await c.get(OID(oidstr(inst)))
-                    ret = "ok" if r.value == b"value" else "exc"
+                    if sc.get("opkind") == "walk":
+                        r = [vb async for vb in c.walk(OID(oidstr(PFX + (1,))))]
+                        ret = "ok" if [(tuple(vb.oid.nodes), vb.value.value) for vb in r] == [(inst, b"value")] else "wrong"
+                    else:
+                        r = await c.get(OID(oidstr(inst)))
+                        ret = "ok" if r.value == b"value" else "wrong"
                 except Exception as e:  # noqa
                     ret = "exc"
                 reqs = []
